@@ -1,3 +1,6 @@
 //! Reference models (oracles). Each is written from the property statement /
 //! protocol spec, independently of the driver code.
 pub mod sharding;
+pub mod replication;
+pub mod derive;
+pub mod typecompat;
